@@ -398,6 +398,11 @@ class RealRunner:
                     break
         except Exception:  # noqa: BLE001
             pass
+        for c in self.coros:
+            try:
+                c.close()
+            except Exception:  # noqa: BLE001
+                pass
         try:
             loop._ready.clear()
             loop.close()
@@ -449,9 +454,17 @@ class RealRunner:
             return "self"
         return "blocked" if asynkit.task_is_blocked(task) else "runnable"
 
+    def _postag(self, o, p):
+        n = len(self.loop._ready)
+        self.tags.add(f"{o}-pos{'<' if p < n else '=' if p == n else '>'}len")
+
     async def do(self, sid, op):
         o = op[0]
         loop = self.loop
+        if o in ("si", "cp", "cr"):
+            self._postag(o, op[1])
+        elif o == "ri" or (o == "sw" and op[2] is not None):
+            self._postag(o, op[2])
         if o == "sleep0":
             await asyncio.sleep(0)
             return "ok"
@@ -744,3 +757,190 @@ class RefSched:
         if o == "it":
             return "[" + ",".join(self.lab(h) for h in self.q) + "]", False
         return "nop", False
+
+
+# ---------------------------------------------------------------------------------------
+# program generation, shrinking
+
+
+ZERO_SPECS = ["i:0", "f:0.0", "e:NORMAL", "f:-0.0"]
+PRI_SPECS = ["i:-10", "i:-1", "i:0", "f:0.5", "i:1", "i:10", "f:-1.0", "f:0.0", "f:1.0", "f:10.0",
+             "e:HIGH", "e:NORMAL", "e:LOW"]
+
+
+def gen_program(rng, flavour="c08", n_tasks=None, max_ops=8, long=False):
+    """flavour c08: equal priorities (all zero, any representation), no locks;
+    c10: priorities from PRI_SPECS, PriorityLock ops, priority changes;
+    c10eq: like c10 but all priorities zero (equal-priority clause)."""
+    n = n_tasks or rng.randint(2, 6)
+    prio_flavour = flavour in ("c10", "c10eq")
+    specs = PRI_SPECS if flavour == "c10" else ZERO_SPECS
+    nlocks = rng.randint(1, 2) if prio_flavour and rng.random() < 0.7 else 0
+    tasks = []
+    label = [100]
+
+    def lab():
+        label[0] += 1
+        return label[0]
+
+    def pos():
+        r = rng.random()
+        if r < 0.35:
+            return 0
+        if r < 0.6:
+            return 1
+        if r < 0.9:
+            return rng.randint(2, n + 2)
+        return rng.randint(n + 2, n + 8)
+
+    def gen_op(me):
+        r = rng.random()
+        t = rng.randrange(n)
+        if long:
+            if r < 0.30:
+                return ["sleep0"]
+            if r < 0.55:
+                return ["si", pos()]
+            if r < 0.75:
+                return ["cp", rng.choice([0, 0, 1, 2]), lab()]
+            if r < 0.82:
+                return ["cs", lab()]
+            if r < 0.90:
+                return ["sw", t, rng.choice([None, 0, 1, 2])]
+            if r < 0.95:
+                return ["ri", t, pos()]
+            return ["me", t]
+        if r < 0.14:
+            return ["sleep0"]
+        if r < 0.26:
+            return ["si", pos()]
+        if r < 0.38:
+            return ["sw", t, rng.choice([None, None, 0, 1, 1, 2, pos()])]
+        if r < 0.47:
+            return ["ri", t, pos()]
+        if r < 0.55:
+            return ["cp", pos(), lab()]
+        if r < 0.60:
+            return ["cs", lab()]
+        if r < 0.65:
+            return ["cr", pos(), t, pos()]
+        if r < 0.70:
+            return ["fi", t]
+        if r < 0.75:
+            return ["me", t]
+        if r < 0.80:
+            return ["rmi"]
+        if r < 0.85:
+            return ["bl"]
+        if r < 0.91:
+            return ["wk", t]
+        if r < 0.94:
+            return ["it"]
+        if prio_flavour:
+            if nlocks and r < 0.97:
+                return ["aq", rng.randrange(nlocks)]
+            if flavour == "c10" and r < 0.985:
+                return ["sp", rng.choice(specs)]
+        return ["sleep0"]
+
+    for sid in range(n):
+        k = rng.randint(20, 45) if long else rng.randint(1, max_ops)
+        ops = [gen_op(sid) for _ in range(k)]
+        if nlocks:
+            # give lock sections a shape: acquire ... (work) ... release
+            out, held = [], None
+            for op in ops:
+                if op[0] == "aq":
+                    if held is not None:
+                        out.append(["rl", held])
+                    held = op[1]
+                out.append(op)
+                if held is not None and rng.random() < 0.3:
+                    out.append(["rl", held])
+                    held = None
+            if held is not None:
+                out.append(["rl", held])
+            ops = out
+        kind = "plain" if rng.random() < (0.25 if prio_flavour else 0.4) else "prio"
+        tasks.append({"kind": kind, "pri": rng.choice(specs), "ops": ops})
+    n_init = rng.randint(1, n)
+    order = list(range(n))
+    rng.shuffle(order)
+    init_t, later = order[:n_init], order[n_init:]
+    init = [["t", s] for s in init_t]
+    for _ in range(rng.randint(0, 2)):
+        init.insert(rng.randint(0, len(init)), ["c", lab()])
+    # every other script is created by an op of an earlier-born script
+    born = list(init_t)
+    for s in later:
+        creator = rng.choice(born)
+        ops = tasks[creator]["ops"]
+        how = rng.choice(["cr8", "de", "de", "st"])
+        ops.insert(rng.randint(0, len(ops)), [how, s])
+        born.append(s)
+    return {"tasks": tasks, "init": init, "locks": nlocks}
+
+
+def gen_contention(rng):
+    """create_task_descend under PriorityLock contention: the caller holds a lock, descends into
+    a new task that blocks on that lock; more urgent tasks are runnable meanwhile."""
+    specs = PRI_SPECS
+    hi, lo = rng.choice(["i:-10", "e:HIGH", "f:-1.0", "i:-1"]), rng.choice(["i:1", "i:10", "e:LOW", "f:0.5"])
+    mid = rng.choice(["i:0", "f:0.0", "e:NORMAL", "f:0.5", "i:-1", "i:1"])
+    caller = [["aq", 0]] + [["sleep0"]] * rng.randint(0, 1) + [["de", 1]] + \
+             [rng.choice([["sleep0"], ["cs", 201], ["it"]])] + [["rl", 0], ["sleep0"]]
+    child = [rng.choice([["sleep0"], ["cs", 202]])] * rng.randint(0, 1) + [["aq", 0], ["sleep0"], ["rl", 0]]
+    others = []
+    for i in range(rng.randint(1, 3)):
+        ops = [rng.choice([["sleep0"], ["si", rng.randint(0, 2)], ["cs", 210 + i], ["sleep0"]])
+               for _ in range(rng.randint(2, 5))]
+        others.append({"kind": rng.choice(["prio", "prio", "plain"]), "pri": rng.choice([hi, mid, lo] + specs), "ops": ops})
+    tasks = [{"kind": "prio", "pri": rng.choice([lo, mid]), "ops": caller},
+             {"kind": rng.choice(["prio", "prio", "plain"]), "pri": rng.choice([hi, mid, lo]), "ops": child}] + others
+    init = [["t", 0]] + [["t", 2 + i] for i in range(len(others))]
+    rng.shuffle(init)
+    return {"tasks": tasks, "init": init, "locks": 1}
+
+
+def zeroed(prog):
+    """the same program with every priority replaced by a zero of the same representation"""
+    def z(spec):
+        k = spec.split(":")[0]
+        return {"i": "i:0", "f": "f:0.0", "e": "e:NORMAL"}[k]
+    tasks = []
+    for t in prog["tasks"]:
+        ops = [(["sp", z(o[1])] if o[0] == "sp" else list(o)) for o in t["ops"]]
+        tasks.append({"kind": t["kind"], "pri": z(t["pri"]), "ops": ops})
+    return {"tasks": tasks, "init": [list(i) for i in prog["init"]], "locks": prog.get("locks", 0)}
+
+
+def flatten(prog):
+    items = [("i", i) for i in range(len(prog["init"]))]
+    for sid, t in enumerate(prog["tasks"]):
+        items += [("o", sid, i) for i in range(len(t["ops"]))]
+    return items
+
+
+def rebuild(prog, items):
+    keep_i = {x[1] for x in items if x[0] == "i"}
+    keep_o = {(x[1], x[2]) for x in items if x[0] == "o"}
+    tasks = []
+    for sid, t in enumerate(prog["tasks"]):
+        tasks.append({"kind": t["kind"], "pri": t["pri"],
+                      "ops": [o for i, o in enumerate(t["ops"]) if (sid, i) in keep_o]})
+    return {"tasks": tasks, "init": [x for i, x in enumerate(prog["init"]) if i in keep_i],
+            "locks": prog.get("locks", 0)}
+
+
+def op_kinds(prog):
+    ks = set()
+    for t in prog["tasks"]:
+        for o in t["ops"]:
+            if o[0] not in ("it",):
+                ks.add(o[0])
+    return "+".join(sorted(ks))
+
+
+def prog_text(prog):
+    import json
+    return json.dumps(prog, sort_keys=True, separators=(",", ":"))
